@@ -731,6 +731,7 @@ FIXED = [
     ("&A\n &K X\n  V 1\n &END K\n &K Y\n  V 2\n &END K\n&END A\n",
      {"A->K->X": {"data": {"V": "9"}}, "A->K->Y": {"data": {"W": "9"}, "replace": True}}, None),
     ("&A\n &K X\n &END K\n &K X\n &END K\n&END A\n", {"A->K->X": {"data": {"V": "9"}}}, ["A->K"]),
+    ("&A\n &K X\n &END K\n &K Y\n &END K\n&END A\n", {"A->K->X->NEW": {"data": {}}}, None),
     ("&A\n&END\n\n&B\n&END\n", {"A": {"data": ["L 1", "L 1"], "replace": True, "settings": []}}, ["B", "B"]),
     ("&\n", None, None), ("&END\n", None, None), ("&A\n&ENDPOINT\n X 1\n&END\n", None, None), ("& END\n&END\n", None, None),
     ("", {"NEW->SUB": {"data": {"K": "1"}}}, None), ("X 1\n", {}, []),
@@ -835,7 +836,7 @@ def run_part(ctx):
         "cp2k part: sibling order of a SectionNode's children (a Python set) is observed at run time and handed to the "
         "model; all outputs are compared as section trees with children sorted recursively",
     ]
-    return ("cp2k: 15 fixed boundary templates; every ASCII *.inp under /repo/examples and /repo/test unchanged, with the "
+    return ("cp2k: 16 fixed boundary templates; every ASCII *.inp under /repo/examples and /repo/test unchanged, with the "
             "engine's own update dict and with random edits of its sections; seeded random templates from a section grammar "
             "(depth ≤ 3, 2- and 3-member duplicate-title groups with equal/distinct settings, comment/data lines, blank "
             "lines, mixed case, CRLF, 15 % malformed: lone '&', stray/missing &END, &ENDPOINT, '& X', stray data) with "
